@@ -90,7 +90,7 @@ Proof.
     + apply provide_rejected_frame_gen in E. apply sbv_skel in E. apply skel_eq_fields in E.
       destruct E. split; [symmetry; assumption|]. split; intros a; symmetry; auto.
     + exfalso. eapply provide_never_aborts; eauto.
-  - unfold decorate. destruct (existsb _ _); cbn [snd]; [auto|].
+  - unfold decorate. destruct (negb _ || existsb _ _); cbn [snd]; [auto|].
     split; [rewrite upd_scope_length; reflexivity|].
     split; intros a; rewrite get_scope_upd; destruct (_ && _); reflexivity.
   - pose proof (skel_eq_fields _ _ (invoke_skel cfg b du st s p)) as E. destruct E.
